@@ -20,7 +20,8 @@ def run(ctx):
     from vlib import lib
     lib.load("nojit")
     L = 20
-    menu = [("k2a", [1, 2, L], 1), ("k2big", [1, 2, L], 0), ("k2zero", [1, L], 0), ("k2vec", [L], 0)]
+    menu = [("k2a", [1, 2, L], 1), ("k2big", [1, 2, L], 0), ("k2zero", [1, L], 0), ("k2vec", [L], 0),
+            ("k2off", [L], 0), ("k2off7", [L], 0)]
     jmenu = [("j2", [1, L], 0), ("j3", [L], 0)]
     if ctx.thorough:
         menu += [("k2b", [L], 1), ("k2m1", [1, L], 1), ("k3a", [1, L], 1), ("k2mat", [L], 0), ("k2eps", [L], 0),
